@@ -20,7 +20,9 @@ def check(ctx: Ctx) -> None:
     # cancellation leaves that registry before any suspension / user code (life-cycle typestate, `cancel` facet)
     from .lifecycle import check_lifecycle
     rep.rule("R14.5", "a cancelled task is moved out of the running registry before its cancel callback runs (else a second stop() selects it again)")
-    check_lifecycle(ctx, "R14.5", {"cancel"})
+    # ("... the newest running tasks": every entry of the running registry is a task that still runs - on every way a task can end,
+    #  also by a BaseException that is not an Exception, it is moved out; a finished task left there is counted and "cancelled" by stop())
+    check_lifecycle(ctx, "R14.5", {"cancel", "loc"})
     for f in ctx.pool_funcs("stop"):
         sc = ctx.an.scope(f)
         g = ctx.an.cfg(f)
